@@ -497,6 +497,11 @@ class Simulator(EventProducer, SimulatorInterface, Generic[TIME]):
         return self._replication_state
 
     def end_replication(self):
+        if not self.is_initialized() or self.__worker is None:
+            raise DSOLError("cannot end the replication of an "
+                            +"uninitialized simulator")
+        if self._replication_state == ReplicationState.ENDED:
+            raise DSOLError("replication has already ended")
         self._replication_state = ReplicationState.ENDING
         self.__worker.wakeup()  # just to be sure
         if self._simulator_time < self._replication.end_sim_time:
